@@ -682,6 +682,62 @@ func main() {
 					})
 				}
 			}
+			// control-message helpers that are handed a Message the caller keeps (what
+			// ReadClientMessage/ReadServerMessage returned): the payload is the caller's before and
+			// after the reply went out, whichever side replies, whether or not the destination fails
+			for _, client := range []bool{true, false} {
+				for _, op := range []ws.OpCode{ws.OpPing, ws.OpPong, ws.OpClose} {
+					for _, n := range []int{0, 1, 2, 3, 5, 64, 124, 125} {
+						for _, via := range []string{"HandleControlMessage", "HandleClient/ServerControlMessage", "HandleControlMessage/state-with-extension-bit", "ControlHandler.Handle(bytes.Reader over the caller's payload)"} {
+							for _, fail := range []int{-1, 0} {
+								client, op, n, via, fail := client, op, n, via, fail
+								if op == ws.OpClose && n == 1 {
+									continue
+								}
+								t.Do(func() string {
+									return fmt.Sprintf("%s client=%v op=%x payload len=%d destination-fails-at=%d", via, client, byte(op), n, fail)
+								}, func() *explore.Fail {
+									vsync.SetMode(vsync.LIFOPoison)
+									vsync.ResetAll()
+									orig := make([]byte, n)
+									for i := range orig {
+										orig[i] = byte('a' + i%26)
+									}
+									if op == ws.OpClose && n >= 2 {
+										orig[0], orig[1] = 0x03, 0xe8
+									}
+									p := append([]byte{}, orig...)
+									st := ws.StateServerSide
+									if client {
+										st = ws.StateClientSide
+									}
+									d := env.NewDst()
+									d.FailAt = fail
+									msg := wsutil.Message{OpCode: op, Payload: p}
+									switch via {
+									case "HandleControlMessage":
+										wsutil.HandleControlMessage(d, st, msg)
+									case "HandleControlMessage/state-with-extension-bit":
+										wsutil.HandleControlMessage(d, st|ws.StateExtended, msg)
+									case "HandleClient/ServerControlMessage":
+										if client {
+											wsutil.HandleServerControlMessage(d, msg)
+										} else {
+											wsutil.HandleClientControlMessage(d, msg)
+										}
+									default:
+										wsutil.ControlHandler{Src: bytes.NewReader(p), Dst: d, State: st, DisableSrcCiphering: true}.Handle(ws.Header{Fin: true, OpCode: op, Length: int64(n)})
+									}
+									if !bytes.Equal(p, orig) {
+										return explore.Failf("caller-message-payload-modified:"+via, "client=%v op=%x: first difference at %d", client, byte(op), firstDiff(p, orig))
+									}
+									return nil
+								})
+							}
+						}
+					}
+				}
+			}
 			// copying mask helpers
 			for _, n := range sizes {
 				n := n
